@@ -35,7 +35,11 @@ def gen_world(rng, nprod=None, spaces=None):
             # the table's own directory: ${PRODUCT_DIR}, or spelled out as ${<NAME>_DIR} (both are replaced by the
             # directory when the table is loaded: Table.expandEupsVariables)
             pd = "${PRODUCT_DIR}" if rng.random() < 0.8 else "${%s_DIR}" % name.upper()
-            if rng.random() < 0.85:
+            r0 = rng.random()
+            if r0 < 0.12:
+                # one command contributing two elements
+                lines.append("envPrepend(PATH, %s/bin:%s/scripts)" % (pd, pd))
+            elif r0 < 0.85:
                 lines.append("envPrepend(PATH, %s/bin)" % pd)
             if rng.random() < 0.5:
                 lines.append("envAppend(LD_LIBRARY_PATH, %s/lib)" % pd)
@@ -501,7 +505,11 @@ def own_contributions(res, name, version):
     for a in info["actions"]:
         f = a.split(",")
         if f[0] == "P":
-            paths.append((common.dec(f[2]), common.dec(f[3]), common.dec(f[4])))
+            # a value may hold several elements (the delimiter inside the value): each is a contribution
+            d = common.dec(f[4])
+            for el in common.dec(f[3]).split(d):
+                if el:
+                    paths.append((common.dec(f[2]), el, d))
         elif f[0] == "E":
             sets[common.dec(f[1])] = common.dec(f[2])
         elif f[0] == "A":
